@@ -299,12 +299,22 @@ def lake_build(targets):
     return p.returncode == 0, p.stdout
 
 
+def prop_modules(prop):
+    """the theorem file of a property and its continuation files `Props/<prop>_*.lean` (theorems that need later files)"""
+    d = os.path.join(LEAN, "Utcp", "Props")
+    files = [os.path.join(d, prop + ".lean")] + sorted(glob.glob(os.path.join(d, prop + "_*.lean")))
+    return [f for f in files if os.path.exists(f)]
+
+
 def theorem_names(prop):
-    path = os.path.join(LEAN, "Utcp", "Props", prop + ".lean")
-    txt = open(path).read()
-    ns = re.findall(r"^namespace\s+(\S+)", txt, re.M)
-    prefix = ns[0] + "." if ns else ""
-    return [prefix + m for m in re.findall(r"^theorem\s+([A-Za-z0-9_'.]+)", txt, re.M)], txt
+    names, txts = [], []
+    for path in prop_modules(prop):
+        txt = open(path).read()
+        ns = re.findall(r"^namespace\s+(\S+)", txt, re.M)
+        prefix = ns[0] + "." if ns else ""
+        names += [prefix + m for m in re.findall(r"^theorem\s+([A-Za-z0-9_'.]+)", txt, re.M)]
+        txts.append(txt)
+    return names, "\n".join(txts)
 
 
 def audit(prop):
@@ -322,7 +332,8 @@ def audit(prop):
     tmp = os.path.join(VERIF, "build", "audit_%s_%d.lean" % (prop, os.getpid()))
     os.makedirs(os.path.dirname(tmp), exist_ok=True)
     with open(tmp, "w") as fh:
-        fh.write("import Utcp.Props.%s\n" % prop)
+        for f in prop_modules(prop):
+            fh.write("import Utcp.Props.%s\n" % os.path.basename(f)[:-5])
         for nme in names:
             fh.write("#print axioms %s\n" % nme)
     p = subprocess.run(["lake", "env", "lean", tmp], cwd=LEAN, stdout=subprocess.PIPE, stderr=subprocess.STDOUT, text=True)
@@ -436,7 +447,7 @@ def main():
     if not ok:
         proof_ok = False
         proof_msgs.append("regeneration of the generated Lean definitions failed: " + msg)
-    build_ok, out = (False, "") if not ok else lake_build(["Utcp", "driver", "Utcp.Props." + prop])
+    build_ok, out = (False, "") if not ok else lake_build(["Utcp", "driver"] + ["Utcp.Props." + os.path.basename(f)[:-5] for f in prop_modules(prop)])
     if ok and not build_ok:
         proof_ok = False
         errs = [l for l in out.splitlines() if "error" in l][:8]
